@@ -15,7 +15,7 @@ import time
 from .. import core, gen, obs
 
 NEED_CLI = True
-TYPES = ["AWS::S3::Bucket", "AWS::EC2::Volume", "AWS::IAM::Role", "Custom::Thing"]
+TYPES = ["AWS::S3::Bucket", "AWS::EC2::Volume", "AWS::IAM::Role", "Custom::Thing", "Custom::Log-Forwarder", "Custom::team@thing"]
 PROPS = ["Name", "Size", "Encrypted", "Tags", "Policy", "Zone"]
 STR_PLAIN = ["us-west-2a", "my-bucket", "x", "arn:aws:iam::123:role/r", "a b", "v1.2"]
 STR_ODD = {"leading-space": " lead", "trailing-space": "trail ", "inner-quote": 'say "hi"', "hash": "a #b", "slash": "a/b/c", "unicode": "grüße-日本",
